@@ -3,6 +3,7 @@ import SocVerif.Driver.MemMapD
 import SocVerif.Driver.TreeD
 import SocVerif.Driver.ActD
 import SocVerif.Driver.EvD
+import SocVerif.Driver.RegD
 
 def main (args : List String) : IO UInt32 := do
   match args with
@@ -12,4 +13,5 @@ def main (args : List String) : IO UInt32 := do
   | ["action"] => ActD.main; return 0
   | ["monitor"] => EvD.mainMon; return 0
   | ["evmap"] => EvD.mainMap; return 0
+  | ["reg"] => RegD.main; return 0
   | _ => IO.eprintln "usage: driver <mux|mmap|...>"; return 2
